@@ -104,6 +104,11 @@ def bsfToPauli (v : List Nat) : List Pauli :=
 def bsfWt (v : List Nat) : Nat :=
   (List.zipWith (fun x z => x + z) (xPart v) (zPart v)).countP (· ≠ 0)
 
+/-- `bsf_wt` of a 2-D stack (dense: `count_nonzero(X + Z)` over the whole matrix; csr counts the
+    distinct (row, qubit) pairs): the total number of non-identity single-qubit factors of the stacked operators. -/
+def bsfWtStack (rows : List (List Nat)) : Nat :=
+  (rows.map bsfWt).sum
+
 /-- `bvector_to_int`: big-endian binary number. -/
 def bvectorToInt (v : List Nat) : Nat :=
   v.foldl (fun acc b => 2 * acc + b) 0
